@@ -291,3 +291,56 @@ Lemma run_pendingL_wf tb fuel t n s n' s' l : wf s -> run_pendingL tb fuel t n s
 Proof. intros Hw H. apply run_pendingL_kmoves in H. apply (wfk_kmoves _ _ _ H Hw). Qed.
 
 End Ops.
+
+(* ------------------------------------------------------------------ lazily deleted entries were un-posted by the user *)
+Definition dinv (q : list entry) (o : list obs) : Prop :=
+  forall x, In x q -> e_live x = false -> In (unposted x) o.
+
+Lemma dinv_umove c n q o c' n' q' o' : wfk n q -> umove (c, n, q, o) (c', n', q', o') -> dinv q o -> dinv q' o'.
+Proof.
+  intros Hw H D. inversion H; subst.
+  - intros y Hy Hl. right. auto.
+  - intros y [<-|Hy] Hl; [discriminate|auto].
+  - intros y Hy Hl. right. auto.
+  - match goal with F : find_live _ _ = Some _ |- _ => pose proof (find_live_some _ _ _ F) as [Hx [Hi Hlx]] end.
+    intros y Hy Hl. apply kill_in in Hy. destruct Hy as [[Hy _]|[z [Hz [Hzi ->]]]].
+    + right. auto.
+    + destruct (e_live z) eqn:Ez.
+      * assert (z = x) by (eapply NoDup_id_inj; [apply Hw|assumption|assumption|congruence]). subst z. left.
+        unfold unposted. cbn. rewrite Hi. reflexivity.
+      * right. rewrite (dead_of_dead z Ez). auto.
+Qed.
+
+Lemma dinv_umoves k k' : umoves k k' -> wfk (snd (fst (fst k))) (snd (fst k)) ->
+  dinv (snd (fst k)) (snd k) -> dinv (snd (fst k')) (snd k').
+Proof.
+  induction 1 as [|k1 k2 k3 H _ IH]; [auto|]. intros Hw D.
+  destruct k1 as [[[c n] q] o], k2 as [[[c' n'] q'] o']. cbn in *.
+  apply IH; [eapply wfk_umove; eassumption|eapply dinv_umove; eassumption].
+Qed.
+
+Lemma dinv_incl q q' o x : incl q' q -> dinv q o -> dinv q' (x :: o).
+Proof. intros Hi D y Hy Hl. right. apply D; auto. Qed.
+
+Lemma dinv_kmove c n q o l c' n' q' o' : wfk n q -> kmove (c, n, q, o) l (c', n', q', o') -> dinv q o -> dinv q' o'.
+Proof.
+  intros Hw H D. inversion H; subst.
+  - match goal with U : umoves _ _ |- _ => apply (dinv_umoves _ _ U Hw D) end.
+  - intros y Hy. apply D. exact (discard_dead_incl _ _ _ Hy).
+  - exact D.
+  - intros y Hy Hl. right. revert y Hy Hl.
+    match goal with U : umoves _ _ |- _ => apply (dinv_umoves _ _ U) end; cbn.
+    + apply wfk_remove, Hw.
+    + apply (dinv_incl q); [apply remove_id_incl|exact D].
+  - intros y Hy Hl. right. revert y Hy Hl.
+    match goal with U : umoves _ _ |- _ => apply (dinv_umoves _ _ U Hw) end. cbn.
+    apply (dinv_incl q); [apply incl_refl|exact D].
+Qed.
+
+Lemma dinv_kmoves k l k' : kmoves k l k' -> wfk (snd (fst (fst k))) (snd (fst k)) ->
+  dinv (snd (fst k)) (snd k) -> dinv (snd (fst k')) (snd k').
+Proof.
+  induction 1 as [|k1 l1 k2 l2 k3 H _ IH]; [auto|]. intros Hw D.
+  destruct k1 as [[[c n] q] o], k2 as [[[c' n'] q'] o']. cbn in *.
+  apply IH; [eapply wfk_kmove; eassumption|eapply dinv_kmove; eassumption].
+Qed.
